@@ -11,6 +11,9 @@ EXPLANATION = ('For every call in physical-plan, datasource*, execution, common-
                'forward (`other => return Poll::Ready(other)`). Reported: a match that reads the Ok payload but never the Err payload '
                '(`while let Some(Ok(b)) = input.next()` turns a failed input into end-of-input), an Err payload that is read but goes '
                'nowhere, and results consumed only by ok()/is_ok()/unwrap_or*/`let _`. Each site accepted today is frozen with a reason. '
+               'Error locals: a user-named local of engine-Result type that is re-assigned or captured mutably by a closure (so that it may hold an Err on '
+               'some paths) never reaches the end of its scope un-moved on a path whose answer is a locally built non-error value (found the dropped '
+               'comparison error of the order-sensitive array_agg sort, repaired by a fix commit). '
                'Fan-out completeness: every loop that sends to each output channel taken from an iterator (the error / end-of-input fan-out of '
                'RepartitionExec::wait_for_task and any like it) runs until the iterator is exhausted on every path, so a failed send to an '
                'output that hung up cannot keep the error from the outputs still being read. '
@@ -165,6 +168,73 @@ def item_sites(ctx, facts, scope, rule='error-payload-reaches-sink'):
     return bad, n
 
 
+def error_locals_not_dropped(ctx, f, scope, rule='error-local-not-dropped', accepted=None):
+    """Path rule: a user-named local whose type is a Result (or Poll/Option of one) over an engine error type, and whose value may be
+    an Err on some path (unknown or Err at that point), must not reach the end of its scope un-moved on that path — it has to be
+    returned, `?`-ed, matched or handed to a sink.  A stored error that one path returns and another path silently drops (e.g. an
+    error kept in a local across a loop and forgotten when the function answers Pending) turns a failed input into a normal end."""
+    import resultflow as rf
+    from traces import run_traces, Undecidable, show, strip, A, T
+    import C53
+    accepted = accepted or {}
+    n = 0
+    for d, i, e in f.all_fn_entries():
+        s_ = d[1:] if d.startswith('<') else d
+        if not s_.startswith(scope) or '::test' in d or '::tests::' in d:
+            continue
+        rec = f.fn(d, i)
+        if 'bb' not in rec:
+            continue
+        cand = [k for k, (t, nm) in enumerate(rec['locals']) if nm and k > rec['argc'] and rf.is_result_of_err(t)]
+        if not cand:
+            continue
+        # only locals that are assigned more than once or captured mutably by a closure can differ between paths; a single-assignment
+        # local that is dropped unused is already a compiler warning (unused_must_use / unused variable)
+        multi = []
+        for k in cand:
+            asg = sum(1 for b in rec['bb'] for st in b['s'] if st[0] == '=' and st[1][0] == k and not st[1][1] and not b.get('cu'))
+            asg += sum(1 for b in rec['bb'] if b['t'][0] == 'call' and not b.get('cu') and b['t'][3][0] == k and not b['t'][3][1])
+            capt = any(st[0] == '=' and st[2][0] == 'ref' and len(st[2]) > 2 and st[2][2] and st[2][1][0] == k for b in rec['bb'] for st in b['s'])
+            if asg > 1 or capt:
+                multi.append(k)
+        if not multi:
+            continue
+        n += 1
+        ctx.analysed_fns.add(d)
+
+        def keep(ev):
+            return ev[0] in ('drop', 'loopcut', 'let')
+        try:
+            outs = run_traces(f, rec, C53.fn_args(rec), inline_depth=0, loop_visits=2, time_budget=2, budget=400000, try_tags=True, keep=keep, kill_dead=False)
+        except Undecidable as ex:
+            ctx.skip(rule, d, 'not enumerable: %s' % str(ex)[:60])
+            continue
+        bad = set()
+        for o in outs:
+            rs = show(o.ret)
+            if 'Err(' in rs or rs.startswith('Err'):
+                continue          # some error surfaces on this path; a second pending error being dropped with it is not a swallowed failure
+            if not isinstance(strip(o.ret), (A, T)) or '?call:' in rs:
+                continue          # the answer is (or contains) the result of a helper: whether it carries the error is not visible here
+            evs = list(o.events)
+            for k, ev in enumerate(evs):
+                if ev[0] == 'drop' and len(ev) > 4 and ev[4] and ev[3] in multi:
+                    nm = rec['locals'][ev[3]][1]
+                    if any(x[0] == 'let' and x[1] == nm for x in evs[k + 1:]):
+                        continue  # the old value is dropped by a re-assignment (another error takes its place), not at the end of its scope
+                    bad.add((nm, ev[2]))
+        inst = d
+        if bad and d in accepted:
+            ctx.ok(rule, inst, 'accepted: ' + accepted[d], nontrivial=False)
+        elif bad:
+            nm, line = sorted(bad)[0]
+            ctx.fail(rule, inst, ctx.loc(rec, line), 'the local `%s` can hold an error (its value is not known to be Ok) and reaches the end of its scope on a path that neither '
+                     'returns nor inspects it: the error is silently dropped on that path' % nm, key='%s|%s|%s' % (rule, d, nm))
+        else:
+            ctx.ok(rule, inst, sample={'fn': d, 'locals': [rec['locals'][k][1] for k in multi]} if n <= 5 else None)
+    return n
+
+
 import fanout
 
 
@@ -172,6 +242,8 @@ def run(ctx):
     f = ctx.facts
     bad, n = item_sites(ctx, f, SCOPE)
     ctx.floor('error-payload-reaches-sink', 'stream-item / task-result call sites', n, 250)
+    ne = error_locals_not_dropped(ctx, f, tuple(x + '::' for x in SCOPE) + ('datafusion_functions_aggregate::', 'datafusion_functions_aggregate_common::'))
+    ctx.counts['functions with a re-assigned / captured engine-Result local'] = ne
     # error fan-out: a loop sending the final message / the error to each output channel must reach every channel
     fanout.check(ctx, 'fan-out-complete', lambda c: (c[1:] if c.startswith('<') else c).startswith(SCOPE),
                  must_cover=['datafusion_physical_plan::repartition::RepartitionExec::wait_for_task'], floor=1)
